@@ -1,6 +1,11 @@
 package drv
 
 import (
+	"a0verif/instr"
+	"os"
+	"path/filepath"
+	"strings"
+
 	"bytes"
 	"encoding/hex"
 	"encoding/json"
@@ -15,16 +20,17 @@ import (
 )
 
 type c07Engine struct {
-	e          *Env
-	src, cold  string
-	realOutMu  sync.Mutex
-	realOut    map[string]string // default-source outputs seen so far -> where
+	e         *Env
+	src, cold string
+	realOutMu sync.Mutex
+	realOut   map[string]string // default-source outputs seen so far -> where
 }
 
 // c07Plan is a history with the configuration it runs in.
 type c07Plan struct {
 	Mode string   `json:"mode"` // real | preinit
 	Hist histPlan `json:"hist"`
+	Env  []string `json:"env,omitempty"` // process environment additions (variables the tree is seen to read)
 }
 
 type c07Stats struct {
@@ -79,7 +85,7 @@ func (g *c07Engine) judge(cp *c07Plan, st *c07Stats) (*histVerdict, error) {
 	hp := &cp.Hist
 	hk := histKey(hp.Ops, len(hp.Ops))
 	if cp.Mode == "real" {
-		res, p, err := g.runHist(g.src, hp)
+		res, p, err := g.runHist(g.src, hp, cp.Env...)
 		if err != nil {
 			return nil, err
 		}
@@ -102,7 +108,7 @@ func (g *c07Engine) judge(cp *c07Plan, st *c07Stats) (*histVerdict, error) {
 		return nil, nil
 	}
 	// preinit: the OS device is the simulator
-	res, p, err := g.runHist(g.cold, hp)
+	res, p, err := g.runHist(g.cold, hp, cp.Env...)
 	if err != nil {
 		return nil, err
 	}
@@ -157,7 +163,7 @@ func (g *c07Engine) judge(cp *c07Plan, st *c07Stats) (*histVerdict, error) {
 		cursor += idx + need
 	}
 	// (ii) same stream, another process in another environment: same outcomes
-	res2, p2, err := g.runHist(g.cold, hp, "GOMAXPROCS=1", "BIP39_VERIF_NOISE="+strconv.FormatInt(time.Now().UnixNano(), 10), "TZ=Pacific/Kiritimati")
+	res2, p2, err := g.runHist(g.cold, hp, append(append([]string{}, cp.Env...), "GOMAXPROCS=1", "BIP39_VERIF_NOISE="+strconv.FormatInt(time.Now().UnixNano(), 10), "TZ=Pacific/Kiritimati")...)
 	if err != nil {
 		return nil, err
 	}
@@ -187,7 +193,7 @@ func (g *c07Engine) judge(cp *c07Plan, st *c07Stats) (*histVerdict, error) {
 	}
 	alt.Dev = &d
 	if hp.Dev.Fill == "" || hp.Dev.Fill == "prng" {
-		res3, p3, err := g.runHist(g.cold, &alt)
+		res3, p3, err := g.runHist(g.cold, &alt, cp.Env...)
 		if err != nil {
 			return nil, err
 		}
@@ -407,6 +413,24 @@ func CheckC07(e *Env) (int, error) {
 	for i := 0; i < nSim; i++ {
 		plans = append(plans, mk("preinit", i))
 	}
+	// the environment as a configuration input: every variable the tree is seen to read is set, in turn,
+	// to a few plausible values (a flag, a device path, a readable file) at process start
+	envNames, envOpaque := instr.EnvNames(e.RepoCopy())
+	envFile := filepath.Join(e.Scr, "envfile.bin")
+	os.WriteFile(envFile, []byte(strings.Repeat("fixed content, not random\n", 200)), 0644)
+	envRuns := 0
+	for _, name := range envNames {
+		for _, val := range []string{"1", "true", "/dev/zero", envFile, "0"} {
+			for k := 0; k < 6; k++ {
+				for _, mode := range []string{"real", "preinit"} {
+					cp := mk(mode, 100000+envRuns)
+					cp.Env = []string{name + "=" + val}
+					plans = append(plans, cp)
+					envRuns++
+				}
+			}
+		}
+	}
 	var mu sync.Mutex
 	tot := &c07Stats{fired: map[string]int{}}
 	var viols []*Violation
@@ -467,24 +491,27 @@ func CheckC07(e *Env) (int, error) {
 	sort.Slice(viols, func(a, b int) bool { return len(mustJSON(viols[a].Plan)) < len(mustJSON(viols[b].Plan)) })
 	code, reported := e.Report("C07", viols, g)
 	cov := map[string]interface{}{
-		"evaluations":         len(plans),
-		"distinct_nontrivial": len(distinct),
-		"rule":                "a case = one cold-start history of 1-40 calls in a fresh process. Configuration A: nothing simulated, the identity of the source (== crypto/rand.Reader) re-read after every step. Configuration B: crypto/rand.Reader replaced before package init by the simulated device (scripted faults over the whole process), identity re-read after every step, every successful NewMnemonic decoded by the reference decoder and matched against an unused run of the delivered stream, the history repeated in a second process (other pid/time/env/GOMAXPROCS: same outcomes) and with another stream (every successful output differs). Non-trivial: >= 1 successful NewMnemonic and, in B, >= 1 NewMnemonic that met a device fault; distinct by digest of (configuration, calls, device).",
-		"exhaustive":          false,
-		"samples":             samples,
-		"runs":                len(plans),
-		"worker_processes":    tot.procs,
-		"sim_steps_total":     totalOps,
-		"sim_time_note":       "no clock in the system; simulated time is counted in history operations",
-		"identity_rereads":    tot.idChecks,
-		"newmnemonic_success": tot.newOK,
-		"newmnemonic_failed_on_fault": tot.newFail,
-		"device_reads":        tot.devReads,
-		"faults_fired":        tot.fired,
-		"default_source_outputs_compared": len(tot.realOutputs),
-		"probes":              map[string]int{"n_language_pairs_seen_as_first_call": len(firstCalls)},
-		"raw_violations":      len(viols),
-		"outcome_digest_simulated_source_runs": od.String(),
+		"evaluations":                            len(plans),
+		"distinct_nontrivial":                    len(distinct),
+		"rule":                                   "a case = one cold-start history of 1-40 calls in a fresh process. Configuration A: nothing simulated, the identity of the source (== crypto/rand.Reader) re-read after every step. Configuration B: crypto/rand.Reader replaced before package init by the simulated device (scripted faults over the whole process), identity re-read after every step, every successful NewMnemonic decoded by the reference decoder and matched against an unused run of the delivered stream, the history repeated in a second process (other pid/time/env/GOMAXPROCS: same outcomes) and with another stream (every successful output differs). Non-trivial: >= 1 successful NewMnemonic and, in B, >= 1 NewMnemonic that met a device fault; distinct by digest of (configuration, calls, device).",
+		"exhaustive":                             false,
+		"samples":                                samples,
+		"runs":                                   len(plans),
+		"worker_processes":                       tot.procs,
+		"sim_steps_total":                        totalOps,
+		"sim_time_note":                          "no clock in the system; simulated time is counted in history operations",
+		"identity_rereads":                       tot.idChecks,
+		"newmnemonic_success":                    tot.newOK,
+		"newmnemonic_failed_on_fault":            tot.newFail,
+		"device_reads":                           tot.devReads,
+		"faults_fired":                           tot.fired,
+		"default_source_outputs_compared":        len(tot.realOutputs),
+		"probes":                                 map[string]int{"n_language_pairs_seen_as_first_call": len(firstCalls)},
+		"environment_variables_read_by_the_tree": envNames,
+		"environment_reads_with_opaque_names":    envOpaque,
+		"histories_with_environment_set":         envRuns,
+		"raw_violations":                         len(viols),
+		"outcome_digest_simulated_source_runs":   od.String(),
 	}
 	if err := e.WriteEvidence("C07", "exploration", cov, []string{
 		"package initialisation order puts a0verif/harness/presim before github.com/islishude/bip39 (self-checked by every coldsim worker: SEAM-FAILED otherwise)",
